@@ -699,7 +699,11 @@ func (s *Server) netServe() error {
 						close = true // close connection
 						break
 					}
-					if msg != nil && msg.Command() != "" {
+					if msg != nil && (msg.Command() != "" ||
+						(msg.ConnType != HTTP && msg.ConnType != WebSocket)) {
+						// (an empty command name on a RESP, telnet or native
+						// connection is answered as an unknown command in that
+						// connection's protocol, not with an HTTP status line)
 						if client.outputType != Null {
 							msg.OutputType = client.outputType
 						} else if defaultOutputType != Null {
